@@ -3,6 +3,18 @@
 import json, sys
 
 CLAIMED = {
+    "C05": dict(
+        category="exploration",
+        technique="complete-domain enumeration: all 2^13 AC13 codes (DF4, DF20) and all 2^12 AC12 codes x TC 9..18 x paths x option sets through the real reader thread vs an independent Q-bit/Gillham decoder",
+        text="Every altitude code of every format that carries one is executed through the real reader thread, as first frame and as update of a row holding a sentinel altitude, under {default,-U,-R,-U -R} and two/three settings of the other payload bits, and compared with an independent decoder (Q=1 formula; Gillham validated by round trip against a separately written encoder). The domain is finite, so enumeration decides it. Q=0 (Gillham) is a recorded known finding keyed by the explicit set of failing AC13 codes / the closed predicate Q=0 for AC12.",
+        note="Trusted: reference decoder refmodel/fields.rs (self-validated at start-up). M=1 codes are skipped (unconstrained); a DF20 creating the row may contribute the address only.",
+        design="DESIGN.md §5 C05, §6 D12", engine="E1 sweep"),
+    "C09": dict(
+        category="exploration",
+        technique="bounded-exhaustive (quick) / complete-domain (thorough: all 2x1024x2x1024 x 2 subtypes) enumeration of TC19 codes through the real reader thread on both update paths and four option sets vs an independent velocity decoder",
+        text="Velocity codes (quick: the cross of all E/W values x 10 N/S magnitudes x both signs and vice versa; thorough: the full 2x1024x2x1024 product, both subtypes) and all 2x512 vertical-rate codes are executed as first and as n-th frame under {default,-U,-R,-U -R}; every observation is compared with the reference and the eight observations of a code with each other.",
+        note="Trusted: reference velocity/vertical-rate decoder; admissible set for floor(atan2) at exact integer angles (1e-9 deg) and 4-kt band for the supersonic subtype.",
+        design="DESIGN.md §5 C09", engine="E1 sweep"),
     "C02": dict(
         category="exploration",
         technique="bounded-exhaustive input enumeration on the real reader thread: all digit counts 0..64, all 32 DF x both lengths, all single decoration insertions, against an independent acceptance rule",
